@@ -16,10 +16,16 @@
 (*     at the perturbed points, real or complex),                              *)
 (*   - the placement of the columns (component subsets, discipline level:      *)
 (*     named input/output variables, requested subsets, x_indices, indices).   *)
-(* Invariants: Shape, WithinBounds, ErrorEqualsOrderTerm (the quotient equals  *)
-(* the symbolic derivative plus the closed-form truncation term of the method: *)
-(* f''.h/2 + f'''.h^2/6 forward, f'''.h^2/6 centred, -f'''.d^2/6 complex step  *)
-(* with the effective step d = x_i.h), Exact (no division truncates).          *)
+(* Invariants: Shape, WithinBounds, OneComponent, ErrorEqualsOrderTerm (the     *)
+(* quotient equals the symbolic derivative plus the closed-form truncation     *)
+(* term of the method: f''.h/2 + f'''.h^2/6 forward, f'''.h^2/6 centred,       *)
+(* -f'''.d^2/6 complex step with the effective step d = x_i.h; no integer      *)
+(* division truncates), OrderBound (first / second order as inequalities),     *)
+(* DiscShape (nested shapes, reflexivity of the Jacobian check).               *)
+(* The calibrated behaviour of gemseo that is modelled as intended: complex    *)
+(* step perturbs relatively (i.x_c.h, i.h when x_c = 0).  Known defects are    *)
+(* NOT modelled (known_findings.d/C16.json): the flip/drop rule below is the   *)
+(* one that keeps every point inside the bounds.                               *)
 EXTENDS Integers, Sequences, FiniteSets, TLC
 
 CONSTANTS K,      \* lattice exponent
@@ -136,20 +142,14 @@ QuotDen(I, c, h) ==
 \* the approximation of d f_r / d x_c, scale S^2
 Quot(I, r, c, h) == ExactDiv(QuotNum(I, Funs[I.fid].f[r], c, h), QuotDen(I, c, h))
 
-\* closed-form truncation term of the method, scale S^2
-OrderTerm(I, r, c, h) ==
-  LET P == Funs[I.fid].f[r] IN
-  IF I.meth = "cs" THEN -(D3(P, I.X, c) * ImagOff(I, c, h) * ImagOff(I, c, h))
-  ELSE LET p == PlusOff(I, c, h)
-           m == MinusOff(I, c, h)
-       IN D2h(P, I.X, c) * (p + m) + D3(P, I.X, c) * (p * p + p * m + m * m)
 Exact1(I, r, c) == D1(Funs[I.fid].f[r], I.X, c)
 
-\* the same from a record a = [num, den, d1, d2h, d3] computed once per entry
+\* per entry: numerator and denominator of the quotient, symbolic derivatives at x
 AuxEntry(I, r, c, h) ==
   LET P == Funs[I.fid].f[r]
   IN [num |-> QuotNum(I, P, c, h), den |-> QuotDen(I, c, h),
       d1 |-> D1(P, I.X, c), d2h |-> D2h(P, I.X, c), d3 |-> D3(P, I.X, c)]
+\* closed-form truncation term of the method, scale S^2
 OrderTermA(I, c, h, a) ==
   IF I.meth = "cs" THEN -(a.d3 * ImagOff(I, c, h) * ImagOff(I, c, h))
   ELSE LET p == PlusOff(I, c, h)
@@ -183,7 +183,7 @@ Cand(me, n, lb, ub, h) ==
           THEN {ub, 0, lb, -(S \div 2)} \cup (IF Rich THEN {S \div 2, -S} ELSE {})
           ELSE {ub, ub - h \div 2, 0, lb}
                \cup (IF Rich \/ n <= 2 THEN {ub - h} ELSE {})
-               \cup (IF Rich THEN {ub - 2 * h, lb + h, -(S \div 2)} ELSE {})) :
+               \cup (IF Rich THEN {ub - 2 * h, lb + h} ELSE {})) :
      lb <= v /\ v <= ub}
 PointSet(me, n, lb, ub, hc) ==
   {x \in [1..n -> UNION {Cand(me, n, lb[c], ub[c], hc[c]) : c \in 1..n}] :
@@ -221,7 +221,7 @@ RECURSIVE Concat(_, _, _)
 Concat(lay, req, k) == IF k = 0 THEN <<>> ELSE Concat(lay, req, k - 1) \o lay[req[k]].cs
 Flat(lay, req) == Concat(lay, req, Len(req))      \* components (rows) of the requested flat vector
 
-DiscPoints == IF Rich THEN {<<S, S \div 2, -S>>, <<0, 0, 0>>, <<-2 * S, S \div 2, 0>>, <<S \div 2, 0, 2 * S>>}
+DiscPoints == IF Rich THEN {<<S, S \div 2, -S>>, <<0, 0, 0>>, <<-2 * S, S \div 2, 0>>}
               ELSE {<<S, S \div 2, -S>>, <<0, S \div 2, 0>>}
 DiscSteps(me) == {[sk |-> "scalar", hc |-> <<h, h, h>>] : h \in (IF Rich THEN {S \div 16, S \div 64} ELSE {S \div 16})}
                  \cup (IF me = "cs" THEN {} ELSE {[sk |-> "vector", hc |-> <<S \div 16, S \div 8, S \div 64>>]})
